@@ -613,7 +613,10 @@ def main():
         "wall_s": round(time.time() - t_start, 1),
         "violations": len(violations) + (1 if (breaks or disagreements) and not violations else 0),
     }
-    json.dump(evidence, open(os.path.join(VERIF, "evidence", f"{pid}.json"), "w"), indent=1)
+    # evidence/ is only ever written by runs against /repo itself; runs against a scratch checkout
+    # (VERIF_REPO set, mutation experiments) leave their record in the work directory instead
+    ev_path = os.path.join(VERIF, "evidence", f"{pid}.json") if REPO == "/repo" else os.path.join(workdir, "evidence.scratch.json")
+    json.dump(evidence, open(ev_path, "w"), indent=1)
 
     # ---- verdict
     for fid, c in sorted(known_hits.items()):
